@@ -19,6 +19,9 @@
 //	parse <inputHex> -> <C1> <U1> <F1> <CL> <UL> <FL>
 //	match <ML> <LS> -> <overall> <bits> <anch> <search>
 //	mset <ML>|<ML>|… <LS> -> <0|1> <anch>|<anch>|…
+//	apimatch <ML> <LS> -> <0|1|E|S> <anch>          GET /api/v2/alerts?filter=<printed matcher>&… on the real API handler with one
+//	                                                alert carrying LS (empty-valued labels left out): is it listed?  E = the API
+//	                                                refused the filter, S = not applicable (no non-empty label / invalid UTF-8)
 //
 // Regexp oracle.  `anch` has one character per matcher of the list: 'x' for = / !=,
 // otherwise what Go's regexp package says about "the pattern matches the WHOLE
@@ -31,11 +34,17 @@
 package matcher
 
 import (
+	"context"
+	"encoding/json"
 	"fmt"
 	"math/rand/v2"
+	"net/http"
+	"net/http/httptest"
+	"net/url"
 	"regexp"
 	"strconv"
 	"strings"
+	"sync"
 	"testing"
 	"time"
 	"unicode"
@@ -44,10 +53,16 @@ import (
 	"github.com/prometheus/common/model"
 	"github.com/prometheus/common/promslog"
 
+	apiv2 "github.com/prometheus/alertmanager/api/v2"
+	"github.com/prometheus/alertmanager/config"
+	"github.com/prometheus/alertmanager/eventrecorder"
 	"github.com/prometheus/alertmanager/featurecontrol"
 	"github.com/prometheus/alertmanager/matcher/compat"
 	"github.com/prometheus/alertmanager/matcher/parse"
 	"github.com/prometheus/alertmanager/pkg/labels"
+	"github.com/prometheus/alertmanager/provider/mem"
+	"github.com/prometheus/alertmanager/types"
+	"github.com/prometheus/client_golang/prometheus"
 
 	"verif/harness/hx"
 )
@@ -343,6 +358,15 @@ func exec(line string) string {
 			return b.String()
 		})
 		return overall + " " + bits + " " + oracle(ms, lset, true) + " " + oracle(ms, lset, false)
+	case "apimatch":
+		need(3)
+		ms := parseML(f[1])
+		lm, st := build(ms)
+		if st != "" {
+			return st
+		}
+		lset := parseLS(f[2])
+		return apiMatch(lm, lset) + " " + oracle(ms, lset, true)
 	case "mset":
 		need(3)
 		var set labels.MatcherSet
@@ -360,6 +384,79 @@ func exec(line string) string {
 		return call(func() string { return bit(set.Matches(lset)) }) + " " + strings.Join(orc, "|")
 	}
 	panic("bad op " + f[0])
+}
+
+// ---- the API's alert filter (api/v2 matchFilterLabels behind GET /api/v2/alerts?filter=…) ----
+
+var (
+	apiOnce   sync.Once
+	apiAlerts *mem.Alerts
+	apiH      http.Handler
+	apiSeq    int
+)
+
+func apiMatch(lm labels.Matchers, lset model.LabelSet) string {
+	apiOnce.Do(func() {
+		var err error
+		reg := prometheus.NewRegistry()
+		apiAlerts, err = mem.NewAlerts(context.Background(), 1000*time.Hour, 0, nil, promslog.NewNopLogger(), eventrecorder.NopRecorder(), reg, nil)
+		if err != nil {
+			panic(err)
+		}
+		api, err := apiv2.NewAPI(apiAlerts, nil, nil, nil, nil, promslog.NewNopLogger(), reg)
+		if err != nil {
+			panic(err)
+		}
+		cfg, err := config.Load("route:\n  receiver: r\nreceivers:\n- name: r\n")
+		if err != nil {
+			panic(err)
+		}
+		api.Update(cfg, func(context.Context, model.LabelSet) {})
+		apiH = api.Handler
+	})
+	ls := model.LabelSet{}
+	for n, v := range lset {
+		if v != "" {
+			if !utf8.ValidString(string(n)) || !utf8.ValidString(string(v)) || n == "" {
+				return "S"
+			}
+			ls[n] = v
+		}
+	}
+	for _, m := range lm {
+		if !utf8.ValidString(m.Name) || !utf8.ValidString(m.Value) {
+			return "S"
+		}
+	}
+	apiSeq++
+	id := strconv.Itoa(apiSeq)
+	ls["zz_verif_id"] = model.LabelValue(id)
+	now := time.Now()
+	a := &types.Alert{Alert: model.Alert{Labels: ls, StartsAt: now.Add(-time.Minute), EndsAt: now.Add(time.Hour)}, UpdatedAt: now}
+	if err := apiAlerts.Put(context.Background(), a); err != nil {
+		return "S"
+	}
+	q := url.Values{}
+	for _, m := range lm {
+		q.Add("filter", m.String())
+	}
+	q.Add("filter", `zz_verif_id="`+id+`"`)
+	req := httptest.NewRequest("GET", "/api/v2/alerts?"+q.Encode(), nil)
+	rec := httptest.NewRecorder()
+	apiH.ServeHTTP(rec, req)
+	// resolve it so that the provider does not grow
+	a2 := *a
+	a2.EndsAt = now.Add(-time.Second)
+	a2.UpdatedAt = now
+	_ = apiAlerts.Put(context.Background(), &a2)
+	if rec.Code != 200 {
+		return "E"
+	}
+	var out []json.RawMessage
+	if err := json.Unmarshal(rec.Body.Bytes(), &out); err != nil {
+		return "E"
+	}
+	return bit(len(out) > 0)
 }
 
 // ---- rune pool (the Lean side hard-codes this printability table) ----
@@ -1370,6 +1467,9 @@ func runCase(tr *hx.Trace, id int, g *gen, do func(string) string) {
 			ls := lsTok(g.labelSet(ms))
 			sets = append(sets, ls)
 			do("match " + ml + " " + ls)
+			if g.r.IntN(3) == 0 {
+				do("apimatch " + ml + " " + ls)
+			}
 		}
 		lists := make([]string, 1+g.r.IntN(3))
 		for i := range lists {
